@@ -95,8 +95,16 @@ pub fn base_for(rng: &mut StdRng, ctx: &Ctx, entry: &str) -> Base {
     let retries = rng.gen_range(0 ..= 2u64);
     let mut cfg = json!({"retries": retries, "port": 27015});
     let proto_base = |rng: &mut StdRng, e: &str| -> (bool, Vec<Vec<Vec<u8>>>) {
-        let cands: Vec<&Value> = ctx.v.layouts.all.iter().filter(|l| l["layout"]["entry"] == e).collect();
+        let mut cands: Vec<&Value> = ctx.v.layouts.all.iter().filter(|l| l["layout"]["entry"] == e).collect();
         assert!(!cands.is_empty(), "no layout for entry {e}");
+        // a consistent server (the count it reports equals the entries it lists) more often than the shapes' share: mutations
+        // of one field are then seen against a second field that "agrees"
+        if rng.gen_bool(0.6) {
+            let consistent: Vec<&Value> = cands.iter().copied().filter(|l| l["shape"]["num"] == "equal").collect();
+            if !consistent.is_empty() {
+                cands = consistent;
+            }
+        }
         let b = proto::build_fitting(rng, &cands);
         (b.tcp, b.batches)
     };
